@@ -5,6 +5,7 @@ import (
 	"go/ast"
 	"go/token"
 	"go/types"
+	"reflect"
 	"strings"
 
 	"sopverif/eng"
@@ -284,6 +285,9 @@ func builtinCall(info *types.Info, e ast.Expr, name string) *ast.CallExpr {
 func posOf(n ast.Node) token.Pos {
 	if n == nil {
 		return token.NoPos
+	}
+	if v := reflect.ValueOf(n); v.Kind() == reflect.Ptr && v.IsNil() {
+		return token.NoPos // typed nil (e.g. a *ast.RangeStmt that was not found)
 	}
 	return n.Pos()
 }
